@@ -13,8 +13,9 @@ Core Lean only.  Everything is written by structural recursion (no `while`, no w
 recursion, strings handled as `List Char`) so that the kernel can evaluate the model on the
 generated built-in table (`decide`), and so that the native driver executes *these* definitions.
 
-Modelled, not verified: `re.findall` (its results are an input table `Matches`), `string.Template`
-(re-implemented below for `$$`, `$name`, `${name}`), `str.split`, CPython's `argparse`.
+Modelled, not verified: `string.Template` (re-implemented below for `$$`, `$name`, `${name}`), `str.split`,
+CPython's `argparse`; `re.findall` is a parameter (`Matches`): computed by `Model/Regex.lean` for the supported
+pattern fragment, a harness-supplied table otherwise.
 Set iteration orders of the code (`set(args.passes)`, `set(args.modes)`) are replaced by
 first-occurrence order; the harness compares pass lists up to order and treats a different order of
 simultaneously active modes as the recorded finding D34.
@@ -433,12 +434,21 @@ def isPositional (t : List Opt) (a : String) : Bool :=
 def isAmbiguous (t : List Opt) (a : String) : Bool :=
   match classify t a with | .ambiguous => true | _ => false
 
-/-- regex results supplied by the harness: (first flag of the rule, value) ↦ `re.findall(pattern, value)` -/
-abbrev Matches := List ((String × String) × List String)
-def Matches.get (m : Matches) (flag0 v : String) : List String :=
+/-- `re.findall(pattern, value)` for the `extend_match` rule whose first flag is `flag0`: computed by the model
+    (`compute`; instantiated with `Model/Regex.lean` by `Model/CompilersRe.lean`) or, where `compute` answers
+    `none` (a pattern outside the modelled fragment), read from a table supplied by the harness.
+    Every theorem of `Props/C12.lean` holds for all values of this structure. -/
+structure Matches where
+  table : List ((String × String) × List String) := []
+  compute : String → String → Option (List String) := fun _ _ => none
+def Matches.tableGet (m : List ((String × String) × List String)) (flag0 v : String) : List String :=
   match m with
   | [] => []
-  | ((f, x), r) :: rest => if f == flag0 && x == v then r else Matches.get rest flag0 v
+  | ((f, x), r) :: rest => if f == flag0 && x == v then r else Matches.tableGet rest flag0 v
+def Matches.get (m : Matches) (flag0 v : String) : List String :=
+  match m.compute flag0 v with
+  | some r => r
+  | none => Matches.tableGet m.table flag0 v
 
 /-- the argparse namespace (only what `parse_args` reads back) and parser bookkeeping -/
 structure PState where
